@@ -469,6 +469,48 @@ def r05_7(ctx: Ctx) -> None:
                form=" > ".join(type(lp).__name__ for lp in reversed(loops)))
 
 
+def r05_8(ctx: Ctx) -> None:
+    """ a protocluster whose core lies inside a hybrid group's core span joins that group - every such group, and each
+        group once.  The statement that adds it is governed by the containment test and, at most, by membership in that
+        same group: a test on state shared between the groups (the set of still-unassigned protoclusters, which the
+        first group to claim a protocluster shrinks) would keep it out of the second group; and because a core span of
+        two parts is swept twice, the addition has to be idempotent (a set, or guarded by `not in <that group>`). """
+    qual = "_find_hybrids"
+    outer = ctx.fn(FORM, qual)
+    hosts = [(qual, outer)] + [(f"{qual}.{n.name}", n) for n in walk_local(outer) if isinstance(n, ast.FunctionDef)]
+    count = 0
+    # containers the sweeps over the groups mutate (shared between the groups)
+    shared = {txt(c.func.value) for c in calls(outer) if isinstance(c.func, ast.Attribute) and c.func.attr in ("discard", "remove", "pop")
+              and isinstance(c.func.value, ast.Name)}
+    for hqual, host in hosts:
+        cfg = CFG(host)
+        for call in calls(host):
+            if not (isinstance(call.func, ast.Attribute) and call.func.attr in ("append", "add") and call.args
+                    and isinstance(call.func.value, ast.Name)):
+                continue
+            facts = path_facts(cfg, call)
+            if not any("location_contains_other" in txt(e) or "is_contained_by" in txt(e) for e, _ in facts):
+                continue
+            count += 1
+            group, member = call.func.value.id, txt(call.args[0])
+            foreign = sorted({n.id for e, _ in facts for n in ast.walk(e) if isinstance(n, ast.Name) and n.id in shared and n.id != group})
+            ctx.ob("R05.8", FORM, call, hqual, "joining a hybrid depends on that hybrid only", not foreign,
+                   "a contained protocluster joins every hybrid group whose core span contains its core; the decision reads the "
+                   "containment test and the group itself, never state that another group's sweep has changed",
+                   detail="" if not foreign else f"also tests `{foreign[0]}`, which the first group to take the protocluster shrinks: "
+                   "hybrids {a,b} and {c,d} with overlapping core spans and x inside both give {a,b,x} and {c,d} instead of {a,b,x} "
+                   "and {c,d,x}", form=" and ".join(("" if t else "not ") + txt(e)[:60] for e, t in facts))
+            idempotent = call.func.attr == "add" or any(
+                not t and txt(e) in (f"{member} in {group}",) or t and txt(e) == f"{member} not in {group}" for e, t in facts)
+            ctx.ob("R05.8", FORM, call, hqual, "a member joins a group once", idempotent,
+                   "a core span that crosses the origin is swept once per part, so the same protocluster can be reached twice: "
+                   "the addition is idempotent",
+                   detail="" if idempotent else "ring of 1000: hybrid {b, d} with core span 950..150 and a (core 980..30) inside it: the "
+                   "chemical hybrid lists (a, a, b, d)", form=txt(call))
+    if count < 1:
+        raise AnalysisError(f"{qual}: the statement adding a contained protocluster to a hybrid group was not found")
+
+
 def run(ctx: Ctx) -> None:
     ctx.rule("R05.7", "set merging reaches the transitive closure", floor=1)
     r05_7(ctx)
@@ -482,6 +524,8 @@ def run(ctx: Ctx) -> None:
     r05_5(ctx)
     ctx.rule("R05.6", "bisection-derived scan bounds do not skip ties", floor=3)
     r05_6(ctx)
+    ctx.rule("R05.8", "a contained protocluster joins every containing hybrid, once", floor=2)
+    r05_8(ctx)
     from . import family_e
     family_e.run_for(ctx, "R05.3", [FORM], floor=5,
                      statement="no set of protoclusters reaches an ordered result without a total order")
